@@ -8,7 +8,7 @@ The definitions (`bc7ModesTried`, `possiblePBits`, `pickBestStates`, `pickBestOf
 in the model file `Enc13.lean` and are evaluated by the driver on every run: `Enc13.bc7Rule` turns them into a constraint
 on the header fields of the emitted block (mode, rotation, p-bits, alpha endpoint fields), which the tie compares with the
 fields read back from what `dds::encode` emitted (notes/C13.md, "Tie").  They are also backed by the oracle clause
-`opaque-lost` and the self-tests M6, M10–M15.
+`opaque-lost` and the self-tests M6, M11–M22 (notes/C13.md).
 
 What is and is not discrete, for a fully opaque, not single-coloured block (the single-coloured one is
 `compress_single_color`, proved exact in `Proofs/Bc7Single.lean`):
